@@ -1,6 +1,26 @@
 /* drv_c17 — the public phrase-buffer size bounds every phrase the library can produce (DESIGN 3/C17) */
 #include "pv.h"
 
+/* "... never overruns the caller's buffer or its own": the library's own phrase buffer cannot be seen by a red-zone tool when it
+ * sits inside a larger object (a struct of locals), but the library itself tells how large it believes the buffer is - it wipes it
+ * through the injected memzero.  A string handed to a normaliser from address p must fit the extent the library wipes at p; a
+ * wipe shorter than the string that lived there means the buffer is smaller than its contents (or, no better, that part of the
+ * phrase is left behind) */
+static void own_buffer_check(const char* what, const pv_mlang* L) {
+    for (int i = 0; i < pv_w->nev; ++i) {
+        const pv_event* e = &pv_w->ev[i];
+        if (e->kind != PV_EV_NFC && e->kind != PV_EV_NFKD) continue;
+        for (int k = 0; k < pv_w->nev; ++k) {
+            const pv_event* z = &pv_w->ev[k];
+            if (z->kind != PV_EV_MEMZERO || (const char*)e->ptr < (const char*)z->ptr || (const char*)e->ptr >= (const char*)z->ptr + z->len) continue;
+            size_t extent = (size_t)((const char*)z->ptr + z->len - (const char*)e->ptr);      /* what the library wipes from p onwards */
+            pv_countf(1, "own_buffer.extent_wiped_from_the_address_of_a_normaliser_input.%zu", extent); PV_COUNT("own_buffer.observations", 1);
+            if (extent < e->len)
+                pv_violation("C17/own-buffer-smaller-than-its-string", "%s (%s): a %zu-byte string was handed to the normaliser from a buffer of which the library wipes %zu bytes", what, L->name_en, e->len, extent);
+        }
+    }
+}
+
 static char* hw[PV_MAXLANG][PV_NWORDS];     /* words harvested through polyseed_encode */
 static int len_nfkd[PV_MAXLANG][PV_NWORDS], len_nfc[PV_MAXLANG][PV_NWORDS];
 static bool harvested[PV_MAXLANG];
@@ -126,6 +146,7 @@ static void run_witness(uint64_t idx, pv_rng* rng) {
     if (armed) { pv_arm_some_request(); PV_COUNT("witness.encodes_with_failing_allocator", 1); }
     size_t n = pv_api_encode(s, L->lib, coin, out);
     pv_w->fail_countdown = 0;
+    own_buffer_check("witness", L);
     PV_COUNT("evaluations", 1); PV_COUNT("witness.encodes", 1);
     size_t real = strnlen(out, POLYSEED_STR_SIZE);
     if (real >= POLYSEED_STR_SIZE) pv_violation("C17/output-not-terminated", "%s: no terminator inside the caller's buffer", L->name_en);
@@ -173,6 +194,7 @@ static void run_lengths(uint64_t idx, pv_rng* rng) {
     bool armed = idx % 5 == 4; if (armed) pv_arm_some_request();
     size_t n = pv_api_encode(s, L->lib, coin, out);
     pv_w->fail_countdown = 0;
+    own_buffer_check("exact-length phrase", L);
     PV_COUNT("evaluations", 1);
     char want[2048]; size_t wn = pv_m_encode(&m, L, coin, want, sizeof want);
     size_t real = strnlen(out, POLYSEED_STR_SIZE);
